@@ -5,15 +5,154 @@
 use crate::ckalloc;
 use crate::ctx::Ctx;
 use crate::for_coll;
-use crate::plan::PlanBH;
+use crate::plan::{Plan, PlanBH};
 use crate::states::{build, Coll, Spec, COLLS, RECIPES};
 use crate::util::{Json, Rng};
 
 pub fn run(c: &mut Ctx) {
     c.run_scenarios(|c, idx, rng| {
+        if crate::util::mix(idx ^ 0x1a26e) % 40 == 0 && !crate::util::slow_lane() {
+            let name = *rng.pick(&LARGE_COLLS);
+            for_coll!(name, large_case(c, rng, name));
+            return;
+        }
         let name = COLLS[(crate::util::mix(idx) % COLLS.len() as u64) as usize];
         for_coll!(name, scenario(c, idx, rng, name));
     });
+}
+
+const LARGE_COLLS: [&str; 7] = ["map:P8xP8", "set:P8", "table:P8", "set:B6", "map:B3xB1", "table:B3", "map:B3xZ"];
+
+/// The same inequalities on tables of 2^16..2^21 buckets that are (or were) densely filled: the request sizes
+/// are taken around the real capacity and bucket count, not a bounded stand-in.
+fn large_case<C: Coll>(c: &mut Ctx, rng: &mut Rng, name: &str) {
+    let mut lg = *rng.pick(&[16u32, 17, 18, 19, 20, 20, 21]);
+    while (C::elem_size().max(1) << lg) > (40 << 20) {
+        lg -= 1;
+    }
+    let buckets = 1usize << lg;
+    let cap = buckets / 8 * 7;
+    let plan = *rng.pick(&[Plan::Mixed, Plan::Ident, Plan::Mixed]);
+    let bh = PlanBH::new(plan, rng.next());
+    let (fill, keep) = match rng.below(5) {
+        0 => (cap, cap * (20 + rng.usize_below(40)) / 100),
+        1 => (cap, cap / 2 + rng.usize_below(3)),
+        2 => (cap * 3 / 4, cap / 3),
+        3 => (cap, cap - 1 - rng.usize_below(cap / 16)),
+        _ => (cap / 2 + rng.usize_below(cap / 2), cap / 2 - rng.usize_below(cap / 4)),
+    };
+    let strided = rng.chance(1, 2);
+    let build_it = || -> C {
+        let mut x = C::with_cap(bh, cap);
+        for id in 0..fill as u32 {
+            x.put(id, 3);
+        }
+        // thin out to `keep` elements: either the tail of the id range or every k-th id
+        let mut left = fill;
+        if strided {
+            let mut id = 0u32;
+            while left > keep && (id as usize) < fill {
+                if id % 3 != 0 {
+                    x.del(id);
+                    left -= 1;
+                }
+                id += 1;
+            }
+        }
+        let mut id = fill as u32;
+        while left > keep && id > 0 {
+            id -= 1;
+            if x.del(id) {
+                left -= 1;
+            }
+        }
+        x
+    };
+    let mut d = Json::obj();
+    d.set("collection", Json::s(name));
+    d.set("state", Json::s(format!("large: 2^{} buckets, {:?}, filled to {} then thinned to {} ({})", lg, plan, fill, keep, if strided { "strided" } else { "tail" })));
+    c.describe(d);
+    let tag = format!("{} [2^{} buckets, {:?}, filled {} kept {}]", name, lg, plan, fill, keep);
+    let held = |what: &str, col: &C| {
+        crate::check!(col.capacity() >= col.len(), "{} {}: capacity() {} < len() {}", tag, what, col.capacity(), col.len());
+        let live = ckalloc::counters().live_bytes;
+        crate::check!(col.alloc_size() == live, "{} {}: allocation_size() {} but the allocator holds {} bytes for it", tag, what, col.alloc_size(), live);
+    };
+    let mut targets = vec![cap / 2, cap / 2 + 1, cap - 1, cap, cap + 1, cap + (buckets - cap) / 2, buckets - 1, buckets, buckets + 1, keep, keep + 1];
+    targets.push(keep + rng.usize_below(buckets + buckets / 2 - keep));
+    targets.retain(|t| *t >= keep);
+    for i in (1..targets.len()).rev() {
+        let j = rng.usize_below(i + 1);
+        targets.swap(i, j);
+    }
+    targets.truncate(3);
+    for t in targets {
+        let mut x = build_it();
+        let f = x.validate(&tag);
+        if f.deleted > 0 {
+            c.bump("large_states_with_tombstones");
+        }
+        if f.buckets != buckets || x.len() != keep {
+            // not the shape this case is about (C17 decides the bucket arithmetic); the inequalities below would still be meaningful but mislabelled
+            c.bump("large_state_unexpected_shape");
+            return;
+        }
+        held("built", &x);
+        // the reported room is real
+        let n = t - keep;
+        let fallible = rng.chance(1, 3);
+        if fallible {
+            crate::check!(x.try_reserve(n).is_ok(), "{}: try_reserve({}) failed without an allocation fault", tag, n);
+        } else {
+            x.reserve(n);
+        }
+        crate::check!(x.len() == keep, "{}: reserve({}) changed len() {} -> {}", tag, n, keep, x.len());
+        crate::check!(x.capacity() >= keep + n, "{}: after reserve({}) capacity() {} < len() {} + {}", tag, n, x.capacity(), keep, n);
+        let room = (x.capacity() - x.len()).min(n).min(4000);
+        let a0 = ckalloc::counters();
+        for i in 0..room as u32 {
+            x.put(fill as u32 + 7 + i, 9);
+        }
+        let a1 = ckalloc::counters();
+        crate::check!(a1.allocs == a0.allocs && a1.deallocs == a0.deallocs, "{}: after reserve({}) inserting {} absent keys allocated again", tag, n, room);
+        held("after reserve", &x);
+        x.validate(&tag);
+        c.bump("large_reserves");
+        c.evaluations += 1;
+        c.sig_parts(&[crate::ctx::prop_salt(name), 77, lg as u64, (t * 16 / buckets) as u64, (keep * 8 / buckets) as u64]);
+    }
+    // filling exactly the reported room allocates nothing; shrinking gives back what a fresh table would not need
+    {
+        let mut x = build_it();
+        let room = (x.capacity() - x.len()).min(60_000);
+        let a0 = ckalloc::counters();
+        for i in 0..room as u32 {
+            x.put(fill as u32 + 7 + i, 9);
+        }
+        let a1 = ckalloc::counters();
+        crate::check!(a1.allocs == a0.allocs && a1.deallocs == a0.deallocs, "{}: inserting {} absent keys into the reported room of {} allocated", tag, room, x.capacity() - x.len() + room);
+        held("after filling the reported room", &x);
+        let len = x.len();
+        let (size0, cap0) = (x.alloc_size(), x.capacity());
+        let m = *rng.pick(&[0usize, 0, len + 1, cap / 2, cap]);
+        if m == 0 {
+            x.shrink_to_fit();
+        } else {
+            x.shrink_to(m);
+        }
+        crate::check!(x.len() == len, "{}: shrink changed len()", tag);
+        crate::check!(x.alloc_size() <= size0, "{}: shrink_to({}) enlarged the allocation {} -> {}", tag, m, size0, x.alloc_size());
+        crate::check!(x.capacity() >= len.max(m.min(cap0)), "{}: after shrink_to({}) capacity() {} < max(len {}, min(m, previous capacity {}))", tag, m, x.capacity(), len, cap0);
+        let fresh: C = C::with_cap(bh, len.max(m));
+        let fs = fresh.alloc_size();
+        drop(fresh);
+        crate::check!(x.alloc_size() <= fs, "{}: after shrink_to({}) the allocation is {} bytes, larger than a fresh with_capacity({}) = {} bytes", tag, m, x.alloc_size(), len.max(m), fs);
+        held("after shrink", &x);
+        x.validate(&tag);
+        c.bump("large_shrinks");
+        c.evaluations += 1;
+        c.sig_parts(&[crate::ctx::prop_salt(name), 78, lg as u64, (m * 8 / buckets) as u64, (len * 8 / buckets) as u64]);
+    }
 }
 
 fn absent_ids<C: Coll>(col: &C, n: usize, rng: &mut Rng) -> Vec<u32> {
